@@ -727,8 +727,133 @@ def build_model_map():
     MM["SubstrateSr25519AddrDecoder.DecodeAddr"] = M(lambda m, x: m.call("addrtext.substrate_decode", 4, 0, x))
     MM["SplToken.GetAssociatedTokenAddress"] = M(
         lambda m, x: m.call("serbip.spl_get_ata", x, "EPjFWdd5AufqSSqeM2qN1xzybapC8G4wEGGkZwyTDt1v"))
+    build_model_map_c14b(MM)
     for n in MM:
         assert n in ENTRIES, "MODEL_MAP names an entry point that is not in the census: " + n
+
+
+def build_model_map_c14b(MM):
+    """Second wave: the Bech32-family codecs and address decoders (groups bech32, addrbech), the Cardano / Monero
+    decoders and wallets (group cardmon), and the thin compositions of Extract/Api_c14b.v (group c14b)."""
+    from bip_utils.monero.conf import MoneroConfGetter
+    # ---- Bech32 / SegWit / CashAddr codecs (C10: group bech32); the hrp is the one of the census call
+    MM["Bech32Decoder.Decode"] = M(lambda m, x: m.call("bech32.bech32_decode", "cosmos", x))
+    MM["SegwitBech32Decoder.Decode"] = M(lambda m, x: m.call("bech32.segwit_decode", "bc", x),
+                                         impl=lambda x: list(SegwitBech32Decoder.Decode("bc", x)))
+    MM["BchBech32Decoder.Decode"] = M(lambda m, x: m.call("bech32.cash_decode", "bitcoincash", x),
+                                      impl=lambda x: list(BchBech32Decoder.Decode("bitcoincash", x)))
+    # WifDecoder.Decode(valid string, net_ver bytes): the Base58Check layer accepts, the version argument varies
+    MM["WifDecoder.Decode[net_ver]"] = via("C13", "wif_decode", "serbip", lambda b: [WIF_VALID, b])
+    # ---- address decoders on the Bech32 family (C09: group addrbech), parameters from the coin tables
+    ab = {
+        "AtomAddrDecoder": lambda p: (lambda m, x: m.call("addrbech.atom_decode", p["hrp"], x)),
+        "AvaxPChainAddrDecoder": lambda p: (lambda m, x: m.call("addrbech.avax_decode", 0, x)),
+        "AvaxXChainAddrDecoder": lambda p: (lambda m, x: m.call("addrbech.avax_decode", 1, x)),
+        "EgldAddrDecoder": lambda p: (lambda m, x: m.call("addrbech.egld_decode", x)),
+        "ZilAddrDecoder": lambda p: (lambda m, x: m.call("addrbech.zil_decode", x)),
+        "InjAddrDecoder": lambda p: (lambda m, x: m.call("addrbech.ethb32_decode", 0, x)),
+        "OkexAddrDecoder": lambda p: (lambda m, x: m.call("addrbech.ethb32_decode", 1, x)),
+        "OneAddrDecoder": lambda p: (lambda m, x: m.call("addrbech.ethb32_decode", 2, x)),
+        "P2WPKHAddrDecoder": lambda p: (lambda m, x: m.call("addrbech.p2wpkh_decode", p["hrp"], x)),
+        "P2TRAddrDecoder": lambda p: (lambda m, x: m.call("addrbech.p2tr_decode", p["hrp"], x)),
+        "BchP2PKHAddrDecoder": lambda p: (lambda m, x: m.call("addrbech.bch_decode", p["hrp"], p["net_ver"], x)),
+        "BchP2SHAddrDecoder": lambda p: (lambda m, x: m.call("addrbech.bch_decode", p["hrp"], p["net_ver"], x)),
+        # AdaShelleyAddrDecoder(net_tag): Model/AddrAdaShelley.v over the Bech32 decoder (group cardmon); net 0 main, 1 test
+        "AdaShelleyAddrDecoder": lambda p: (lambda m, x: m.call(
+            "cardmon.ada_shelley_decode", 0 if p["net_tag"] == AdaShelleyAddrNetworkTags.MAINNET else 1, x)),
+    }
+    for name, e in ENTRIES.items():
+        if e["meta"] and e["meta"][0] in ab:
+            dname, params = e["meta"]
+            if set(params) - {"hrp", "net_ver", "net_tag"}:
+                continue
+            MM[name] = M(ab[dname](params))
+    # ---- Cardano / Monero address decoders (C16, C18: group cardmon)
+    MM["AdaShelleyStakingAddrDecoder.DecodeAddr"] = M(lambda m, x: m.call("cardmon.ada_staking_decode", 0, x))
+    MM["AdaShelleyRewardAddrDecoder.DecodeAddr"] = M(lambda m, x: m.call("cardmon.ada_staking_decode", 0, x))
+    MM["AdaByronAddrDecoder.DecodeAddr"] = M(lambda m, x: m.call("cardmon.ada_byron_decode", x))
+    MM["AdaByronAddrDecoder.DecodeAddr[legacy]"] = M(lambda m, x: m.call("cardmon.ada_byron_decode", x))
+    mconf = MoneroConfGetter.GetConfig(MoneroCoins.MONERO_MAINNET)
+    MM["XmrAddrDecoder.DecodeAddr"] = M(lambda m, x: m.call("cardmon.xmr_addr_decode", x, mconf.AddrNetVersion(), []))
+    MM["XmrIntegratedAddrDecoder.DecodeAddr"] = M(
+        lambda m, x: m.call("cardmon.xmr_addr_decode", x, mconf.IntegratedAddrNetVersion(), [bytes(range(8))]))
+    # ---- Monero wallet constructors (C16): [ctor; a; b; net 0 = main; op 0 = keys]; outcome class (objects)
+    c16 = _props("C16")
+    view = Monero.FromSeed(SEED[:32]).PrivateViewKey().Raw().ToBytes()
+    MM["Monero.FromSeed"] = M(lambda m, x: c16.fix_foreign(m.call("cardmon.xmr_wallet", 0, x, b"", 0, 0, [])), shape="class")
+    MM["Monero.FromPrivateSpendKey"] = M(lambda m, x: c16.fix_foreign(m.call("cardmon.xmr_wallet", 1, x, b"", 0, 0, [])), shape="class")
+    MM["Monero.FromWatchOnly"] = M(lambda m, x: c16.fix_foreign(m.call("cardmon.xmr_wallet", 3, view, x, 0, 0, [])), shape="class")
+    # ---- the thin compositions of Model/C14b.v (group c14b)
+    ff = c16.fix_foreign
+    MM["MoneroPrivateKey.FromBytes"] = M(lambda m, x: m.call("c14b.monero_priv_from_bytes", x), shape="class")
+    MM["MoneroPublicKey.FromBytes"] = M(lambda m, x: m.call("c14b.monero_pub_from_bytes", x), shape="class")
+    # FromString of the mnemonic containers (ToList() of the object)
+    for k, cls in (("Algorand", AlgorandMnemonic), ("ElectrumV1", ElectrumV1Mnemonic), ("ElectrumV2", ElectrumV2Mnemonic)):
+        MM[k + "Mnemonic.FromString"] = M(lambda m, x: m.call("c14b.bip39_mnemonic_from_string", x),
+                                          impl=(lambda c_: lambda x: c_.FromString(x).ToList())(cls))
+    for k in ("Monero", "MoneroNoChk"):
+        MM[k + "Mnemonic.FromString"] = M(lambda m, x: m.call("c14b.mnemonic_from_string", x),
+                                          impl=lambda x: MoneroMnemonic.FromString(x).ToList())
+    # Cardano seed generators: language None = automatic detection
+    MM["CardanoIcarusSeedGenerator"] = M(lambda m, x: m.call("c14b.icarus_seed", [], x))
+    MM["CardanoByronLegacySeedGenerator"] = M(lambda m, x: m.call("c14b.byron_legacy_seed", [], x))
+    # Bip32 classes without a C05 class id: 3 nist256p1, 4 ed25519-blake2b; Icarus / Byron legacy use the Kholaw keys (1)
+    c05 = _props("C05")
+    for cname, cid, ver in (("Bip32Slip10Nist256p1", 3, c05.MAIN), ("Bip32Slip10Ed25519Blake2b", 4, c05.MAIN),
+                            ("CardanoIcarusBip32", 1, c05.KHOLAW), ("CardanoByronLegacyBip32", 1, c05.KHOLAW)):
+        MM[cname + ".FromExtendedKey"] = M(
+            (lambda c_, v_: lambda m, x: m.call("c14b.bip32_from_extended", c_, v_[0], v_[1], x))(cid, ver), shape="class")
+        MM[cname + ".FromPrivateKey"] = M((lambda c_: lambda m, x: m.call("c14b.bip32_from_private_key", c_, x))(cid), shape="class")
+        MM[cname + ".FromPublicKey"] = M((lambda c_: lambda m, x: m.call("c14b.bip32_from_public_key", c_, x))(cid), shape="class")
+    # master keys of the Khovratovich-Law family: scheme 0 Kholaw, 1 Icarus, 2 Byron legacy; FromSeedAndPath(seed, str)
+    for cname, scheme in (("Bip32KholawEd25519", 0), ("CardanoIcarusBip32", 1), ("CardanoByronLegacyBip32", 2)):
+        sd = SEED[:32] if scheme == 2 else SEED
+        MM[cname + ".FromSeed"] = M((lambda s_: lambda m, x: ff(m.call("c14b.kh_from_seed", s_, x)))(scheme), shape="class")
+        MM[cname + ".FromSeedAndPath"] = M(
+            (lambda s_, sd_: lambda m, x: ff(m.call("c14b.kh_from_seed_and_path_str", s_, sd_, x)))(scheme, sd), shape="class")
+    MM["CardanoByronLegacy.FromSeed"] = M(lambda m, x: ff(m.call("c14b.kh_from_seed", 2, x)), shape="class")
+    # AdaByronAddrDecoder.DecryptHdPath(bytes, the wallet's HD path key)
+    hdkey = CardanoByronLegacy.FromSeed(SEED[:32]).HdPathKey()
+    MM["AdaByronAddrDecoder.DecryptHdPath"] = M(lambda m, x: m.call("c14b.byron_decrypt_path", hdkey, x), shape="class")
+    # Bip44 / Bip49 / Bip84 / Bip86 / Cip1852 constructors: the coin's Bip32 class id and key net versions
+    c03 = _props("C03")
+    from bip_utils.bip.conf.bip44 import Bip44ConfGetter
+    from bip_utils.bip.conf.bip49 import Bip49ConfGetter
+    from bip_utils.bip.conf.bip84 import Bip84ConfGetter
+    from bip_utils.bip.conf.bip86 import Bip86ConfGetter
+    from bip_utils.cardano.cip1852.conf import Cip1852ConfGetter
+    cls_id = {"Bip32Slip10Secp256k1": 0, "CardanoIcarusBip32": 1, "Bip32Slip10Ed25519": 2}
+    for hc, coin, getter in ((Bip44, Bip44Coins.BITCOIN, Bip44ConfGetter), (Bip44, Bip44Coins.SOLANA, Bip44ConfGetter),
+                             (Bip49, Bip49Coins.LITECOIN, Bip49ConfGetter), (Bip84, Bip84Coins.BITCOIN, Bip84ConfGetter),
+                             (Bip86, Bip86Coins.BITCOIN, Bip86ConfGetter),
+                             (Cip1852, Cip1852Coins.CARDANO_ICARUS, Cip1852ConfGetter)):
+        conf = getter.GetConfig(coin)
+        cid = cls_id[conf.Bip32Class().__name__]
+        vpub, vpriv = conf.KeyNetVersions().Public(), conf.KeyNetVersions().Private()
+        tag = "%s[%s]" % (hc.__name__, coin.name)
+        MM[tag + ".FromExtendedKey"] = M(
+            (lambda c_, a_, b_: lambda m, x: m.call("c14b.bip44_from_extended", c_, a_, b_, x))(cid, vpub, vpriv), shape="class")
+        MM[tag + ".FromPrivateKey"] = M((lambda c_: lambda m, x: m.call("c14b.bip44_from_private_key", c_, x))(cid), shape="class")
+        MM[tag + ".FromPublicKey"] = M((lambda c_: lambda m, x: m.call("c14b.bip44_from_public_key", c_, x))(cid), shape="class")
+        if cid == 1:     # Cip1852.FromSeed: the Icarus master key, then Bip44Base.__init__
+            MM[tag + ".FromSeed"] = M(lambda m, x: ff(m.call("c14b.kh_bip44_from_seed", 1, x)), shape="class")
+        else:            # the SLIP-0010 master key (group deriv: curve 0 secp256k1, 2 ed25519); the depth check is vacuous at depth 0
+            MM[tag + ".FromSeed"] = M(
+                (lambda c_: lambda m, x: m.call("deriv.slip10_seed_path", c_, 0, c03.FUEL, [], x, 0, []))(cid), shape="class")
+    # Sr25519 / Substrate key layers
+    MM["Sr25519PrivateKey.IsValidBytes"] = M(lambda m, x: m.call("c14b.sr_priv_is_valid", x))
+    MM["Sr25519PublicKey.IsValidBytes"] = M(lambda m, x: m.call("c14b.sr_pub_is_valid", x))
+    MM["Sr25519Point.FromBytes"] = M(lambda m, x: m.call("c14b.sr_point_from_bytes", x),
+                                     impl=lambda x: (lambda p: [p.X(), p.Y()])(Sr25519Point.FromBytes(x)))
+    MM["SubstratePrivateKey.FromBytes"] = M(lambda m, x: m.call("c14b.substrate_priv_from_bytes", x), shape="class")
+    MM["SubstratePublicKey.FromBytes"] = M(lambda m, x: m.call("c14b.substrate_pub_from_bytes", x), shape="class")
+    MM["Substrate.FromPrivateKey"] = M(lambda m, x: m.call("c14b.substrate_from_private_key", x), shape="class")
+    MM["Substrate.FromPublicKey"] = M(lambda m, x: m.call("c14b.substrate_from_public_key", x), shape="class")
+    MM["Substrate.FromSeed"] = M(lambda m, x: m.call("c14b.substrate_from_seed", x), shape="class")
+    # Electrum wallets from a seed: v1 = FromPrivateKey; v2 = the secp256k1 master object (segwit: its child m/0')
+    MM["ElectrumV1.FromSeed"] = M(lambda m, x: m.call("serbip.electrum_v1_pub", 0, x, Z(0), Z(0)), shape="class")
+    MM["ElectrumV2Standard.FromSeed"] = M(lambda m, x: m.call("deriv.slip10_seed_path", 0, 0, c03.FUEL, [], x, 0, []), shape="class")
+    MM["ElectrumV2Segwit.FromSeed"] = M(lambda m, x: m.call("deriv.slip10_seed_path", 0, 0, c03.FUEL, [], x, 1, [1 << 31]), shape="class")
 
 
 from modeldrv import Z  # noqa: E402
